@@ -31,7 +31,7 @@ def maeSpec (ds : List Dat) : Rat :=
 def mseSpec (ds : List Dat) : Rat :=
   (ds.map (fun d => d.p0 * (d.y - d.pred) ^ 2)).sum / wsum (fun _ => true) ds
 /-- Σ w·pred / Σ w -/
-def meanPredSpec (ds : List Dat) : Rat :=
+def meanPredictionSpec (ds : List Dat) : Rat :=
   (ds.map (fun d => d.p0 * d.pred)).sum / wsum (fun _ => true) ds
 
 theorem fnr_eq_spec {ds : List Dat} (h : Binary ds) (hne : ds ≠ []) :
@@ -159,7 +159,7 @@ theorem mse_eq_spec {ds : List Dat} (hw : ∀ d ∈ ds, 0 < d.p0) (hne : ds ≠ 
   rfl
 
 theorem meanpred_eq_spec {ds : List Dat} (hw : ∀ d ∈ ds, 0 < d.p0) (hne : ds ≠ []) :
-    eval .meanpred ds = .scalar (fin (meanPredSpec ds)) := by
+    eval .meanpred ds = .scalar (fin (meanPredictionSpec ds)) := by
   have e : sumBy (fun d => d.pred * d.p0) ds = (ds.map (fun d => d.p0 * d.pred)).sum := by
     unfold sumBy; congr 1; apply List.map_congr_left; intro d _
     ring
